@@ -388,14 +388,18 @@ def gen_oracle_case(rng):
     visible = [r["name"] for r in rows if r.get("label") and not r["type"].startswith(("begin", "end")) and bare(r["type"]) not in ("note",)]
     expect_trig = []
     extra = []
-    for i in range(rng.randint(0, 3)):
+    for i in range(rng.randint(0, 4)):
         if not visible:
             break
-        trig = rng.choice(visible)
+        trig = expect_trig[-1][0] if expect_trig and rng.random() < 0.5 else rng.choice(visible)      # several targets on one trigger, often
         name = f"tc{i}"
         if rng.random() < 0.25:
             extra.append({"type": "background-geopoint", "name": name, "trigger": f"${{{trig}}}"})
             expect_trig.append((trig, name, "geo", ""))
+        elif rng.random() < 0.3:
+            # a target WITHOUT a calculation: its setvalue carries no value (and must not inherit a neighbour's)
+            extra.append({"type": rng.choice(["text", "integer"]), "name": name, "label": "T", "trigger": f"${{{trig}}}"})
+            expect_trig.append((trig, name, "sv", None))
         else:
             calc = rng.choice(["1 + 1", "now()", "'x'", "yes", "true", "FALSE", "no"])      # truth-value spellings: converted in binds, and a triggered calculation has no bind calculate
             extra.append({"type": "calculate", "name": name, "calculation": calc, "trigger": f"${{{trig}}}"})
